@@ -43,6 +43,13 @@ def block(s, rng):
 
 
 def cases(rng, tier):
+    # the same query several times in a row on one object
+    for c in gen.repeated_call_cases(rng, 8 if tier == "quick" else 60, ['kappa', 'omega'], gen.CLAMP_BAND[:8] if True else ()):
+        yield c
+    # very long chains (> 1000 residues, lengths that are not round numbers): the chain, its reverse and its charge inverse
+    for sq in gen.very_long(rng, tier != "quick")[:2 if tier == "quick" else 7]:
+        inv = sq.translate(str.maketrans("KRDE", "DEKR"))
+        yield Case(["q %s %s" % (q, t) for t in (sq, sq[::-1], inv) for q in ("delta", "scd", "sigma")], {"kind": "very-long"})
     # objects built from sequence files (two per block)
     for c in gen.file_cases(rng, 12 if tier == "quick" else 100, ['kappa', 'omega', 'scd']):
         yield c
@@ -74,10 +81,12 @@ def cases(rng, tier):
 
 
 def judge(case, reals, gens, specs):
-    if reals and reals[0][0] == "childq":
+    if case.block and case.block[0].startswith("childq "):
+        if reals[0][0] != "childq":
+            return [("violation", 0, "%s -> %s" % (case.block[0], str(reals[0])[:300]))]
         ok_c, why = core.judge_childq(reals[0])
         return [] if ok_c else [("violation", 0, why)]
-    if case.tags.get("kind") in ("after-other-calls", "after-calls-on-another-object", "object-from-file"):
+    if case.tags.get("kind") in ("after-other-calls", "after-calls-on-another-object", "object-from-file", "object-from-big-file", "very-long", "repeated-calls"):
         from ..runner import default_judge
         return default_judge(None, case, reals, gens, specs)
     out = []
